@@ -70,6 +70,32 @@ int main(int argc, char** argv) {
             emitF("reuseable-data-differs", "paths through ReuseableDataContainer64 (order " + std::to_string(order) + ") give another solution: ct=" + std::to_string((int)ct) + " fr=" + std::to_string((int)fr) + " subj=" + S(subj) + " clip=" + S(in.clip) + " open=" + S(opn) + " open solution " + S(ro) + " vs " + S(sol_open));
         }
       }
+      //  (c) ReverseSolution(true) returns the same open pieces, each judged by the same Spec check and, as a set of polylines
+      //      up to direction, identical to the pieces of the run above;
+      //  (d) both Execute overloads with an open-solution argument REPLACE what the caller's containers held.
+      {
+        auto undirected = [](Paths64 ps) {
+          for (auto& p : ps) { Path64 r(p.rbegin(), p.rend()); if (path_less(r, p)) p = r; }
+          std::sort(ps.begin(), ps.end(), path_less); return ps; };
+        Clipper64 cv; cv.ReverseSolution(true); cv.AddSubject(subj); cv.AddOpenSubject(opn); cv.AddClip(in.clip);
+        Paths64 vs, vo; bool okv;
+        if (use_tree) { PolyTree64 t; okv = cv.Execute(ct, fr, t, vo); } else okv = cv.Execute(ct, fr, vs, vo);
+        stat("reverse_solution.with_open_subjects");
+        if (!okv) emitF("execute-returned-false", "ReverseSolution with open subjects, ct=" + std::to_string((int)ct));
+        emitS("open.reversed", "OPENCHECK " + head + S(subj) + " " + S(in.clip) + " " + S(opn) + " " + S(vo));
+        if (undirected(vo) != undirected(sol_open))
+          emitF("reverse-solution-open-differs", "ReverseSolution(true) changes the open pieces beyond their direction: ct=" + std::to_string((int)ct) + " fr=" + std::to_string((int)fr) + " tree=" + std::to_string((int)use_tree) + " subj=" + S(subj) + " clip=" + S(in.clip) + " open=" + S(opn) + " got=" + S(vo) + " want=" + S(sol_open));
+        for (int tree = 0; tree < 2; ++tree) {
+          Clipper64 cs; cs.AddSubject(subj); cs.AddOpenSubject(opn); cs.AddClip(in.clip);
+          Paths64 pc{Path64{Point64(1, 2), Point64(3, 4), Point64(5, 9)}}, po{Path64{Point64(7, 7), Point64(8, 9)}, Path64{Point64(0, 0), Point64(1, 1)}};
+          PolyTree64 t;
+          bool oks = tree ? cs.Execute(ct, fr, t, po) : cs.Execute(ct, fr, pc, po);
+          stat(tree ? "prefilled.tree" : "prefilled.paths");
+          bool same = use_tree == (bool)tree ? po == sol_open : undirected(po) == undirected(sol_open);
+          if (!oks || !same || (!tree && !use_tree && pc != sol))
+            emitF("stale-open-container", std::string(tree ? "Execute(ct, fr, tree, open)" : "Execute(ct, fr, closed, open)") + " into containers that were not empty does not give the result of empty ones: ct=" + std::to_string((int)ct) + " fr=" + std::to_string((int)fr) + " subj=" + S(subj) + " clip=" + S(in.clip) + " open=" + S(opn) + " got=" + S(po) + " want=" + S(sol_open));
+        }
+      }
       // closed solution must be the same region as without the open subjects
       Clipper64 c2; c2.AddSubject(subj); c2.AddClip(in.clip);
       Paths64 sol2; c2.Execute(ct, fr, sol2);
